@@ -867,6 +867,19 @@ func (b *Builder) callTermAt(v ssa.Value, c *ssa.CallCommon, at ssa.Instruction,
 	}
 	if name == "builtin.append" && len(args) == 2 && (typeName(v.Type()) == "[]byte" || typeName(v.Type()) == "[]uint8") {
 		// the value of append(a, b...) on bytes is the concatenation a ‖ b, however a was built
+		// bytes of a string are the string: []byte(s) as an operand of a concatenation is s
+		unconv := func(t *Term) *Term {
+			if t.Op == "conv" && (t.Name == "[]byte" || t.Name == "[]uint8") && len(t.Args) == 1 {
+				if tt := termType(t.Args[0]); tt != nil && typeName(tt.Underlying()) == "string" {
+					return t.Args[0]
+				}
+				if t.Args[0].Op == "const" {
+					return t.Args[0]
+				}
+			}
+			return t
+		}
+		args[0], args[1] = unconv(args[0]), unconv(args[1])
 		base := args[0]
 		switch {
 		case base.Op == "concat":
